@@ -206,11 +206,8 @@ theorem countOwners_in (w id : Nat) : ∀ (cus : List Nat) (acc : Nat), acc ≤ 
 theorem wg_all_allocated (total sumCU : Nat) (hc : 0 < sumCU) (ht : 0 < total) :
     total ≤ sumCU * wgPerCU total sumCU := by
   unfold wgPerCU
-  have hne : total ≠ 0 := by omega
-  simp only [hne, if_false]
-  have := Nat.div_add_mod (total - 1) sumCU
-  have hm := Nat.mod_lt (total - 1) hc
-  rw [Nat.mul_add, Nat.mul_one]
+  have := Nat.div_add_mod (total + sumCU - 1) sumCU
+  have hm := Nat.mod_lt (total + sumCU - 1) hc
   omega
 
 end C18
